@@ -116,13 +116,15 @@ def run_jobs(engine, jobs, workers=16, job_cap_s=120.0, deadline=None, on_result
             now = time.monotonic()
             for s in busy:
                 if s.conn in ready:
+                    job_index = s.job
                     try:
                         status, out = s.conn.recv()
                     except (EOFError, OSError):
+                        s.proc.join(2)
                         status, out = 'died', 'worker died (exit code %s)' % s.proc.exitcode
                         s.kill()
                         s.spawn()
-                    res = (s.job, status, out)
+                    res = (job_index, status, out)
                     results.append(res)
                     if on_result:
                         on_result(res)
@@ -131,6 +133,7 @@ def run_jobs(engine, jobs, workers=16, job_cap_s=120.0, deadline=None, on_result
                     feed(s)
                 elif now - s.t0 > s.job_cap_s:
                     res = (s.job, 'timeout', 'job exceeded %.0f s' % s.job_cap_s)
+                    s.job = None
                     results.append(res)
                     if on_result:
                         on_result(res)
